@@ -118,4 +118,30 @@ def Valet.drain (v : Valet) : Valet :=
 /-- `serviceAll` (no new connections, nothing received inside the call) -/
 def Valet.serviceAll (v : Valet) : Valet := (v.serviceReqs.serviceReps).drain
 
+/-! ### the client: `Patron.serviceResponse` for the request in flight -/
+
+structure Client where
+  rsp : St                          -- the `Respondent`, `.msg` is `connector.rxbs`
+  waited : Bool := true             -- a request has been sent, its response is awaited
+  responses : List Bool := []       -- `responses`: the `errored` flag of each recorded response
+  raised : Bool := false            -- an exception left `serviceResponse`
+  deriving DecidableEq, Repr
+
+/-- bytes arrive (`connector.serviceReceives()`), then the body of `serviceResponse`
+(not redirectable, not an event stream): `if self.waited: parse()`; when `ended` the response is
+recorded with its `errored` flag and `makeParser()` prepares the next one -/
+def Client.recv (c : Client) (b : Bytes) : Client :=
+  if c.raised then c else
+  let s : St := { c.rsp with msg := c.rsp.msg ++ b }
+  if ¬ c.waited then { c with rsp := s } else
+  let s' := parse s
+  if parseRaises s s' then { c with rsp := s', raised := true }
+  else if s'.core.ended = some true then
+    { c with rsp := makeParser s', waited := false, responses := c.responses ++ [s'.core.errored] }
+  else { c with rsp := s' }
+
+/-- `connector.cutoff`: `respondent.close()` in `serviceAll`, then `serviceResponse` -/
+def Client.closed (c : Client) : Client :=
+  if c.raised then c else Client.recv { c with rsp := close c.rsp } []
+
 end Ioflo.Http
